@@ -136,7 +136,12 @@ func Load(opt Options) (*Program, error) {
 }
 
 func (p *Program) inLib(fn *ssa.Function) bool {
-	if fn.Blocks == nil || fn.Synthetic != "" || !fn.Pos().IsValid() {
+	if fn.Blocks == nil || !fn.Pos().IsValid() {
+		return false
+	}
+	// wrappers, thunks and bound-method closures are synthetic; instantiations of generic library functions are
+	// synthetic too but carry real code (the generic body with the type arguments substituted) and are analysed
+	if fn.Synthetic != "" && fn.Origin() == nil {
 		return false
 	}
 	file := p.SSA.Fset.Position(fn.Pos()).Filename
